@@ -589,6 +589,33 @@ int main(int argc, char** argv) {
         ops = done.load(); badn = bad.load();
       }
       fprintf(g_out, "{\"e\":\"SHammer\",\"threads\":%d,\"ops\":%ld,\"bad\":%ld}\n", nth, ops, badn);
+      // fixed_time_zone(offset) called by all threads at once with different offsets: each answer is the zone of *its* offset
+      {
+        const long offs[8] = {3600, -3600, 19800, -28800, 45296, -1, 86400, -86399};
+        std::string names[8];
+        for (int k = 0; k < 8; ++k) names[k] = fixed_time_zone(seconds(offs[k])).name();
+        std::atomic<int> go3(0);
+        std::atomic<long> bad3(0), done3(0);
+        std::vector<std::thread> th3;
+        for (int i = 0; i < nth; ++i) {
+          th3.emplace_back([&, i]() {
+            while (!go3.load()) std::this_thread::yield();
+            long lb = 0;
+            int n3 = iters / 2;
+            unsigned x = 12345u + (unsigned)i * 7919u;
+            for (int j = 0; j < n3; ++j) {
+              x = x * 1103515245u + 12345u;
+              int k = (int)((x >> 16) % 8);
+              time_zone z = fixed_time_zone(seconds(offs[k]));
+              if (z.lookup(std::chrono::time_point<std::chrono::system_clock, seconds>(seconds(0))).offset != offs[k] || z.name() != names[k]) ++lb;
+            }
+            bad3 += lb; done3 += n3;
+          });
+        }
+        go3.store(1);
+        for (auto& th : th3) th.join();
+        fprintf(g_out, "{\"e\":\"SHammer\",\"threads\":%d,\"ops\":%ld,\"bad\":%ld,\"fixed\":1}\n", nth, done3.load(), bad3.load());
+      }
       // the same for zones backed by the C library ("libc:" names): their own single-threaded answers are the reference
       {
         time_zone lz[2];
